@@ -121,6 +121,22 @@ Plan gen(uint64_t seed, const std::string& tier) {
         }
         op.a[A_FPARAM] = double(fparam);
         pl.ops.push_back(op);
+        if (r.chance(0.15)) {
+            // a twin on the same thread: same kind and integer-valued parameters, other coefficients / fractional parameters / data.
+            // State that leaks between instances through anything keyed by "similar" parameters shows up as a mismatch.
+            Op tw = op;
+            tw.a[A_CSEED] = r.seed32();
+            tw.a[A_DSEED] = r.seed32();
+            tw.a[A_FSEED] = r.seed32();
+            for (int k = 0; k < 6; ++k) {
+                const double v = tw.a[size_t(A_P0 + k)];
+                if (v != std::trunc(v)) {
+                    const double w = std::trunc(v) + (v - std::trunc(v)) * r.real(0.1, 0.9);
+                    tw.a[size_t(A_P0 + k)] = w;
+                }
+            }
+            pl.ops.push_back(tw);
+        }
     }
     return pl;
 }
@@ -255,6 +271,7 @@ Result exec(const Plan& pl) {
     const uint32_t order_seed = uint32_t(pl.iparam("order_seed", 1));
     const double p_churn = pl.param("p_churn", 0);
     std::vector<int64_t> churns(size_t(nthr), 0);
+    std::vector<int64_t> late_constructions(size_t(nthr), 0);
 
     SimThreads st;
     st.configure(pl, nthr);
@@ -266,8 +283,9 @@ Result exec(const Plan& pl) {
                 mine.push_back(&in);
             }
         }
-        // construct (inside the simulated thread: constructors use the thread's plan caches)
-        for (Inst* in : mine) {
+        // Instances are constructed lazily, when they are first chosen: an instance is often created while others of the same
+        // kind are alive and have already processed data (constructors use the thread's plan caches and any shared state).
+        auto construct = [&](Inst* in) {
             set_cur_opf("C06 construct %s", proc_name(in->spec.kind));
             try {
                 in->proc = make_proc(in->spec);
@@ -279,12 +297,12 @@ Result exec(const Plan& pl) {
                 in->error = std::string("construct: ") + e.what();
             }
             sim::op_boundary();
-        }
+        };
         // interleave the calls of this thread's instances in seeded order
         for (;;) {
             std::vector<Inst*> live;
             for (Inst* in : mine) {
-                if (in->error.empty() && in->next < in->frames.size()) {
+                if (in->error.empty() && (!in->proc || in->next < in->frames.size())) {
                     live.push_back(in);
                 }
             }
@@ -292,6 +310,13 @@ Result exec(const Plan& pl) {
                 break;
             }
             Inst* in = live[r.below(live.size())];
+            if (!in->proc) {
+                construct(in);
+                if (!in->error.empty()) {
+                    continue;
+                }
+                ++late_constructions[size_t(me)];
+            }
             const int ns = in->frames[in->next] * in->proc->granule;
             set_cur_opf("C06 %s frame %zu len %d", proc_name(in->spec.kind), in->next, ns);
             const size_t before = in->ch[0].size();
@@ -333,6 +358,9 @@ Result exec(const Plan& pl) {
     for (size_t k = 0; k < inst.size(); ++k) {
         Inst& in = inst[k];
         const char* name = proc_name(in.spec.kind);
+        if (!in.proc && in.error.empty()) {
+            continue;   // never reached (its thread ended early)
+        }
         if (!in.error.empty()) {
             if (in.error.rfind("construct:", 0) == 0) {
                 res.invalid = true;   // parameters outside the constructor's contract (shrunk plans only)
@@ -351,7 +379,7 @@ Result exec(const Plan& pl) {
             continue;
         }
         for (size_t c = 0; c < ref.size(); ++c) {
-            const Cmp cmp = compare_stream(in.ch[c], ref[c], 1e-9);
+            const Cmp cmp = compare_stream_local(in.ch[c], ref[c], 1e-9, size_t(4 * in.proc->memory + 64) * size_t((c == 0) ? in.proc->out_width : in.proc->ch1_width));
             res.digest.bytes(in.ch[c].data(), in.ch[c].size() * sizeof(double));
             if (!cmp.ok) {
                 const size_t w = size_t((c == 0) ? in.proc->out_width : in.proc->ch1_width);
@@ -384,7 +412,7 @@ Result exec(const Plan& pl) {
                     break;
                 }
                 for (size_t c = 0; c < ref.size(); ++c) {
-                    const Cmp cmp = compare_stream(ch[c], ref[c], 1e-9);
+                    const Cmp cmp = compare_stream_local(ch[c], ref[c], 1e-9, size_t(4 * in.proc->memory + 64) * size_t((c == 0) ? in.proc->out_width : in.proc->ch1_width));
                     if (!cmp.ok) {
                         res.fail(std::string("C06:mismatch:") + name, fmt("%s channel %zu: composition mask %lld of a %lld-granule stream (%zu frames): element %zu: %s", name, c,
                                                                           static_cast<long long>(mask), static_cast<long long>(in.n), fr.size(), cmp.at, cmp.what.c_str()));
@@ -434,6 +462,11 @@ Result exec(const Plan& pl) {
         nch += c;
     }
     res.inc("fault.churn", nch);
+    int64_t nlate = 0;
+    for (auto c : late_constructions) {
+        nlate += c;
+    }
+    res.inc("probe.instance_constructed_while_others_have_state", nlate);
     res.inc("sim.threads", nthr);
     if (res.invalid) {
         res.ok = true;
